@@ -93,6 +93,11 @@ func (r *nodeReconcile) Reconcile(ctx context.Context, request reconcile.Request
 	default:
 		return reconcile.Result{}, fmt.Errorf("unsupported ip stack %s", eniConfig.IPStack)
 	}
+	if ipv6 && node.Spec.NodeCap.IPv6PerAdapter <= 0 {
+		l.Info("instance is not support ipv6")
+		r.record.Eventf(node, "Warning", types.EventConfigError, "Instance not support ipv6.")
+		ipv6 = false
+	}
 
 	node.Spec.ENISpec = &networkv1beta1.ENISpec{
 		EnableIPv4: ipv4,
